@@ -181,7 +181,18 @@ def run_verus_unit(u, scratch, tier):
     asm = Assembler(scratch.repo, u.path)
     vdir = os.path.join(scratch.dir, 'verus')
     os.makedirs(vdir, exist_ok=True)
-    kf_ids = sorted(set(re.findall(r'//\s*KF:(\w+)', open(u.path).read())))
+    # finding ids carved out by `// KF:<ID>` lines in the unit text or in any file it includes (`//@ include[-external] NAME`)
+    def _unit_texts(path, depth=0):
+        try:
+            t = open(path).read()
+        except OSError:
+            return ''
+        out = t
+        if depth < 8:
+            for inc in re.findall(r'^\s*//@ include(?:-external)?\s+(\S+)\s*$', t, re.M):
+                out += '\n' + _unit_texts(os.path.join(os.path.dirname(path), inc), depth + 1)
+        return out
+    kf_ids = sorted(set(re.findall(r'//\s*KF:(\w+)', _unit_texts(u.path))))
     open_ids = open_finding_ids()
     not_open = [k for k in kf_ids if k not in open_ids]
     try:
